@@ -23,6 +23,7 @@ type DemuxCfg struct {
 	FailAt        int // reader fault offset (when HasFail)
 	FailOnce      bool
 	FailWithData  bool   // the read crossing the fault offset returns n>0 together with the error
+	FailErr       error  // the error of the failing reads (nil: mon.ErrInjected)
 	API           string // "data", "packet", "alt"
 	Skipper       astits.PacketSkipper
 	Parser        astits.PacketsParser
@@ -121,6 +122,7 @@ func NewDemuxerFor(input []byte, cfg DemuxCfg) (*astits.Demuxer, *mon.RTap) {
 		tap.FailAt = cfg.FailAt
 		tap.FailOnce = cfg.FailOnce
 		tap.FailWithData = cfg.FailWithData
+		tap.FailErr = cfg.FailErr
 	}
 	var rd io.Reader
 	switch cfg.Reader {
